@@ -323,6 +323,30 @@ def check_owner_text(ctx):
                         ctx.violation(f"owner text next to wildcard content ({placement}, {h} handler, {w} writer): {body!r} came back as {out}", {**info, "out": out, "obj": repr(obj)[:600]})
 
 
+def chunk_boundaries(ctx):
+    """LARGE documents: the sources are read in chunks (16 KiB by xml.etree, 32 KiB by lxml); an end tag, or the text
+    after it, that falls on a chunk boundary is content like any other - tails before, across and after the boundary."""
+    xctx = XmlContext()
+    for size in (16384, 32768, 65536):
+        for off in (-9, -4, -1, 0, 1, 5):
+            head, rest = "<R>lead<a>", "</a>TAILTEXT<b/>mid<c>q</c>end</R>"
+            text = head + "x" * (size + off - len(head) - len("</a>")) + rest
+            want = infoset.canon(infoset.parse(text), strip_ws_between_children=False)["content"]
+            for placement in ("list", "mixed"):
+                for h in ("native", "lxml"):
+                    for src in ("str", "bytes", "file"):
+                        ctx.case(("chunk-boundary", size, off, placement, h, src))
+                        st, obj, _w = hb.parse(text, h, xctx, PLACEMENTS[placement], src, ParserConfig())
+                        info = {"size": size, "offset": off, "handler": h, "placement": placement, "source": src, "text": text[:40] + " ... " + text[-60:]}
+                        if st != "ok":
+                            ctx.violation(f"large document ({placement}, {h}, {src}): {type(obj).__name__}: {obj}", info)
+                            continue
+                        got = infoset.canon(infoset.parse(rb.render(obj, xctx, "native")), strip_ws_between_children=False)["content"]
+                        if got != want:
+                            ctx.violation(f"large document ({placement}, {h} handler, {src} source): end tag of <a> at byte {size + off}: the text after it comes back as "
+                                          f"{[c for c in got if isinstance(c, str)]!r}, the document says {[c for c in want if isinstance(c, str)]!r}", info)
+
+
 def check_two_wildcards(ctx):
     """Two namespace-restricted wildcards in one model (##targetNamespace and ##other): every captured element
     lands in the field whose namespace rule admits it - also when its LOCAL name was seen before in the other
@@ -401,6 +425,7 @@ def run(ctx):
     ctx.extra["trees_replayed"] = len(cases)
     check_two_wildcards(ctx)
     check_owner_text(ctx)
+    chunk_boundaries(ctx)
     xsi_primitives(ctx)
     xsi_text(ctx)
 
